@@ -169,3 +169,26 @@ def public_vm_fns(F):
 def is_result_of_error(fn):
     out = fn.raw.get("output", "")
     return out.startswith("core::result::Result<") and "Error<" in out
+
+
+_CLUSTER_CONST = {}
+CURRENT_FACTS = None        # set by framework.run_rules: the facts the rules are running on
+
+
+def is_cluster_const(facts, term, which):
+    """term is the constant ClusterId::<which> - by name, or (a literal) by the value that constant has in the tree under test"""
+    if term[0] != "c":
+        return False
+    if term[2]:
+        return term[2].endswith("ClusterId::" + which)
+    facts = facts or CURRENT_FACTS
+    if facts is None:
+        return False
+    key = (id(facts), which)
+    if key not in _CLUSTER_CONST:
+        try:
+            _CLUSTER_CONST[key] = facts.const("ClusterId::" + which)
+        except KeyError:
+            _CLUSTER_CONST[key] = None
+    return _CLUSTER_CONST[key] is not None and term[1] == _CLUSTER_CONST[key]
+
